@@ -3,7 +3,9 @@
 package fzf
 
 import (
+	"fmt"
 	"io"
+	"net"
 
 	"github.com/junegunn/fzf/src/algo"
 	"github.com/junegunn/fzf/src/tui"
@@ -360,4 +362,53 @@ func (v VerifAnsiState) VerifToString() string {
 		st.url = &url{uri: v.URI, params: v.Params}
 	}
 	return st.ToString()
+}
+
+// --- server.go ---
+
+// VerifHandleHttpRequest feeds `chunks` (then EOF) to handleHttpRequest over a pipe and returns
+// the response, whether the GET handler was called, and the action names delivered (nil if none).
+func VerifHandleHttpRequest(apiKey string, chunks [][]byte) (response string, getCalled bool, delivered []string) {
+	server := httpServer{
+		apiKey:        []byte(apiKey),
+		actionChannel: make(chan []*action, 1),
+		getHandler: func(p getParams) string {
+			getCalled = true
+			return fmt.Sprintf(`{"limit":%d,"offset":%d}`, p.limit, p.offset)
+		},
+	}
+	client, srv := net.Pipe()
+	go func() {
+		for _, c := range chunks {
+			if _, err := client.Write(c); err != nil {
+				break
+			}
+		}
+		client.Close()
+	}()
+	response = server.handleHttpRequest(srv)
+	srv.Close()
+	select {
+	case actions := <-server.actionChannel:
+		delivered = verifActionNames(actions)
+	default:
+	}
+	return
+}
+
+func verifActionNames(actions []*action) []string {
+	out := []string{}
+	for _, a := range actions {
+		out = append(out, fmt.Sprintf("%s(%s)", a.t.Name(), a.a))
+	}
+	return out
+}
+
+// VerifParseSingleActionList: what `--bind key:<str>` would bind (nil, err on rejection).
+func VerifParseSingleActionList(str string) ([]string, error) {
+	actions, err := parseSingleActionList(str)
+	if err != nil {
+		return nil, err
+	}
+	return verifActionNames(actions), nil
 }
